@@ -230,6 +230,9 @@ class StmtMixin:
                     recv = base.obj
                     dyn = cls0
                 elif isinstance(base, Obj) and base.cls:
+                    ext0 = self.external_spec(['%s.%s' % (nm_, name) for nm_ in self.tree.mro(base.cls)], fr)
+                    if ext0 is not None and ext0.get('override'):
+                        return None
                     ci, meth = self.tree.lookup_method(base.cls, name)
                     if meth is not None and not getattr(meth, 'declaration_only', False):
                         fv = FuncVal(ci.file, ci.name + '.' + name, meth, cls=ci.name)
